@@ -1,9 +1,57 @@
-(* C08 — see DESIGN.md section 7/C08.  Only property theorems here. *)
-From Flyt Require Import Base Script FlowTable Engine BatchConc EngineCorr EngineFacts BatchConcFacts.
+(* C08 — Concurrency limit is a hard bound and is fully usable.
+   Only property theorems here. All schedules, all item / worker counts, all user code. *)
+From Flyt Require Import Base Script FlowTable Engine BatchConc EngineCorr EngineFacts
+     BatchConcInv BatchConcLive.
 
-(* the concurrent executor only appends callback events (it never rewrites the log and the
-   context is cancelled afterwards exactly when it was before or an event cancelled it) *)
-Theorem C08_executor_appends :
-  forall o rel c k st n s its s' rs, gated_exec o rel c k st n s its = (s', rs) -> ext s s'.
-Proof. exact gated_exec_ext. Qed.
-Print Assumptions C08_executor_appends.
+(* hard bound: in every reachable state, under every schedule, at most `workers` exec calls —
+   and at most `workers` tasks — are in flight *)
+Theorem C08_upper :
+  forall (o : oracle) c nd (items : list val) stopmode nworkers qcap s0 sched,
+    let s := brun o c nd items stopmode qcap (binit items nworkers s0) sched in
+    length (parked s) <= nworkers /\ count_run (ws s) <= nworkers.
+Proof.
+  intros. apply (inflight_bound items nworkers). apply brun_inv. apply binit_inv.
+Qed.
+Print Assumptions C08_upper.
+
+(* fully usable: in every reachable state in which nothing but user code can move (no step of
+   the submitter or of a worker outside an exec call is enabled) and the batch is not over,
+   EVERY worker is inside an exec call, or it is idle and all n items have already been handed
+   out.  So c executions that all block do run at the same time: c mutually dependent items
+   cannot deadlock the batch. *)
+Theorem C08_usable :
+  forall (o : oracle) c nd (items : list val) stopmode nworkers qcap,
+    0 < nworkers -> 0 < qcap ->
+    forall s0 sched,
+      let s := brun o c nd items stopmode qcap (binit items nworkers s0) sched in
+      quiescent o c nd items stopmode qcap s -> mpc s <> MRet ->
+      forall k w, nth_error (ws s) k = Some w ->
+        (exists i a l, w = WRun i (PExec a l)) \/ (w = WIdle /\ deq s = length items).
+Proof.
+  intros o c nd items stopmode nworkers qcap Hw Hq s0 sched s Q Hm.
+  apply (usable_lemma o c nd items stopmode nworkers qcap Hw Hq); auto.
+  - apply brun_inv. apply binit_inv.
+  - apply brun_exit. apply binit_exit.
+Qed.
+Print Assumptions C08_usable.
+
+(* and the pool itself never deadlocks: while the submitter has not returned some thread of
+   the pool can step *)
+Theorem C08_no_deadlock :
+  forall (o : oracle) c nd (items : list val) stopmode nworkers qcap,
+    0 < nworkers -> 0 < qcap ->
+    forall s0 sched,
+      let s := brun o c nd items stopmode qcap (binit items nworkers s0) sched in
+      mpc s <> MRet -> exists t, t <> TCancel /\ bstep o c nd items stopmode qcap s t <> None.
+Proof.
+  intros o c nd items stopmode nworkers qcap Hw Hq s0 sched s Hm.
+  apply (no_deadlock_lemma o c nd items stopmode nworkers qcap Hw Hq); auto.
+  - apply brun_inv. apply binit_inv.
+  - apply brun_exit. apply binit_exit.
+Qed.
+Print Assumptions C08_no_deadlock.
+
+(* the number of workers: pool sizes <= 0 mean one worker *)
+Theorem C08_workers_clamped : forall conc, Nat.max 1 conc >= 1 /\ (1 <= conc -> Nat.max 1 conc = conc).
+Proof. intros conc. split; [apply Nat.le_max_l|intros H; apply Nat.max_r; exact H]. Qed.
+Print Assumptions C08_workers_clamped.
